@@ -285,6 +285,10 @@ def check(case):
         # a chart that carries no timing data of its own: the simfile stays the source
         makers.append(("sm-with-a-chart-without-timing", lambda: TimingData(sm, SMChart.blank())))
         makers.append(("ssc-with-a-chart-without-timing", lambda: TimingData(ssc, SSCChart.blank())))
+        # simfiles without a single property: no events, offset zero
+        for nm, empty in (("sm-without-any-key", SMSimfile(string="")), ("ssc-without-any-key", SSCSimfile(string=""))):
+            td0 = TimingData(empty)
+            need(len(td0.bpms) == len(td0.stops) == len(td0.delays) == len(td0.warps) == 0 and td0.offset == 0, f"TimingData({nm}): {td0!r}")
         carriers = []
         for rnd in (1, 2):
             # round 2: the same sources read again after the lists of the first objects were edited in place - every
